@@ -13,7 +13,7 @@ ID = 'C17'
 LEVEL = 'exploration'
 RULE = ('Hypothesis draws an argument x logic x options, measures the unlimited proof length n under the same tie-break order, '
         'then (1) every positive step limit 1..n+1 (quick: a drawn subset; thorough: all) and the values None / 0 / negative; '
-        '(2) a time limit under a harness-owned fake clock; (3) a drawn sequence of operations step / finish / build / set argument / '
+        '(2) a time limit under a harness-owned fake clock, alone and combined with a step limit (absent / None / 0 / negative / n+1 / n+50 / n-1); (3) a drawn sequence of operations step / finish / build / set argument / '
         'set logic / rules.append / rules.clear / groups.create applied to the tableau, checked after every operation against a small '
         'reference model of the lifecycle (fresh -> started -> finished): flag algebra, verdicts None when premature or without '
         'argument, len(history) <= limit, limit n+1 == unlimited (history signature and verdict), timeout raises ProofTimeoutError and '
@@ -128,12 +128,16 @@ def check_limits(case):
         info['after'] += 1
         if r1 is not None or snapshot(tab) != s0:
             bad('finished-not-inert', f'max_steps={lim}: step()/finish()/build() on the finished tableau changed it or returned an entry')
-    # (2) time limit under the fake clock
+    # (2) time limit under the fake clock, alone and together with a step limit (the web interface always sets both)
     t = case.get('timeout')
     if t is not None:
+        ms = case.get('timeout_max_steps', 'absent')
+        kw = {} if ms == 'absent' else dict(max_steps=ms)
+        step_limited = isinstance(ms, int) and 0 < ms < n
+        what = f'build_timeout={t}' + ('' if ms == 'absent' else f', max_steps={ms}')
         with FakeClock(tick=case.get('tick', 0.001)):
-            tab = prover.make_tableau(logic, prem, con, build_timeout=t, **build_kw(case))
-            raised = False
+            tab = prover.make_tableau(logic, prem, con, build_timeout=t, **kw, **build_kw(case))
+            raised = aborted = False
             try:
                 while True:
                     # the limit is checked at the start of a step against the build time accumulated so far
@@ -143,35 +147,43 @@ def check_limits(case):
                     except ProofTimeoutError:
                         raised = True
                         if before <= t:
-                            bad('timeout-early', f'build_timeout={t}: ProofTimeoutError although only {before} ms had elapsed')
+                            bad('timeout-early', f'{what}: ProofTimeoutError although only {before} ms had elapsed')
                         break
                     if before > t:
-                        bad('timeout-not-raised', f'build_timeout={t}: a step ran although {before} ms had already elapsed')
+                        bad('timeout-not-raised', f'{what}: a step ran although {before} ms had already elapsed')
+                        aborted = True
                         break
                     if entry is None:
                         break
             except Exception as e:
-                bad('timeout-other-exception', f'build_timeout={t}: raised {type(e).__name__} instead of ProofTimeoutError')
+                bad('timeout-other-exception', f'{what}: raised {type(e).__name__} instead of ProofTimeoutError')
             for m in flag_algebra(tab, True):
-                bad('flags', f'build_timeout={t}: {m}')
+                bad('flags', f'{what}: {m}')
             if raised:
                 info['inside'] += 1
                 if not tab.finished or not tab.premature or tab.valid is not None or tab.invalid is not None:
-                    bad('timeout-state', f'build_timeout={t}: after the timeout finished={tab.finished} premature={tab.premature} valid={tab.valid}')
+                    bad('timeout-state', f'{what}: after the timeout finished={tab.finished} premature={tab.premature} valid={tab.valid}')
                 if tab.tree is not None:
-                    bad('timeout-tree', f'build_timeout={t}: tree built after a timeout')
+                    bad('timeout-tree', f'{what}: tree built after a timeout')
                 s0 = snapshot(tab)
                 try:
                     r1 = tab.step(); tab.finish(); tab.build()
                     if r1 is not None or snapshot(tab) != s0:
-                        bad('finished-not-inert', f'build_timeout={t}: calls after the timeout changed the tableau')
+                        bad('finished-not-inert', f'{what}: calls after the timeout changed the tableau')
                 except Exception as e:
-                    bad('timeout-not-inert', f'build_timeout={t}: a call after the timeout raised {type(e).__name__}')
+                    bad('timeout-not-inert', f'{what}: a call after the timeout raised {type(e).__name__}')
+            elif aborted or ms == n:
+                pass        # already reported / a step limit equal to the natural length: the property makes no claim
+            elif step_limited:
+                info['inside'] += 1
+                if not tab.finished or not tab.premature or tab.valid is not None or tab.invalid is not None or len(tab.history) != ms:
+                    bad('premature-verdict', f'{what} (natural length {n}, time limit not hit): finished={tab.finished} premature={tab.premature} '
+                        f'valid={tab.valid} invalid={tab.invalid} after {len(tab.history)} steps')
             else:
                 if tab.premature or not tab.finished:
-                    bad('timeout-silent', f'build_timeout={t}: no ProofTimeoutError but premature={tab.premature}')
+                    bad('timeout-silent', f'{what}: no ProofTimeoutError but premature={tab.premature}')
                 if prover.history_sig(tab) != base_sig:
-                    bad('timeout-changes-proof', f'build_timeout={t} not hit, but the history differs from the unlimited run')
+                    bad('timeout-changes-proof', f'{what}: no limit hit, but the history differs from the unlimited run')
     return out, info
 
 
@@ -322,6 +334,8 @@ def run_shard(shard, acc):
             if data.draw(st.booleans()):
                 case['timeout'] = data.draw(st.integers(1, 400))
                 case['tick'] = data.draw(st.sampled_from([0.0001, 0.001, 0.01]))
+                k = data.draw(st.integers(0, 7))
+                case['timeout_max_steps'] = ('absent', 'absent', None, 0, -1, n + 1, n + 50, max(1, n - 1))[k]
             res, info = check_case(case)
             acc.case((logic, case['premises'], case['conclusion'], case['group'], case['rank'], case['order'], tuple(map(str, case['limits'])), case.get('timeout')),
                      nontrivial=info['inside'] > 0 or info['after'] > 0, classes=('limits', f'natural-length>={min(n, 20) // 5 * 5}'),
